@@ -529,8 +529,9 @@ def autoBindEvents (sink, source, prefix='', weak=False,
   Returns the added listener IDs (so that you can remove them later).
   """
   if len(prefix) > 0 and prefix[0] != '_': prefix = '_' + prefix
-  if hasattr(source, '_eventMixin_events') is False:
-    # If source does not declare that it raises any events, do nothing
+  if getattr(source, '_eventMixin_events', None) in (None, True):
+    # If source does not declare that it raises any events (or declares
+    # that it may raise anything, which we can't enumerate), do nothing
     print("Warning: source class %s doesn't specify any events!" % (
           source.__class__.__name__,))
     return []
